@@ -44,6 +44,55 @@ def closure_is_ne_zero(fns, closure_path):
     return o[0] == "bin" and o[1] == "Ne" and o[3] == ("const", 0, "u8") and mir.deepstrip(o[2])[0] in ("arg", "field")
 
 
+def closure_is_eq_zero(fns, closure_path):
+    f = fns.get(closure_path)
+    if f is None:
+        return False
+    b = mir.Body(f)
+    o = b.origin_local(0)
+    return o[0] == "bin" and o[1] == "Eq" and o[3] == ("const", 0, "u8") and mir.deepstrip(o[2])[0] in ("arg", "field")
+
+
+def idiom_prefix_then_push(fns, body, src):
+    """Idiom C: `end = from.iter().position(|&b| b == 0).unwrap_or(from.len()); v = Vec::with_capacity(..)/new(); v.extend_from_slice(&from[..end]);
+    v.push(0); v.into_boxed_slice()` -- the prefix before the first NUL, then exactly one NUL."""
+    chain, leaf = chain_of_calls(src)
+    cn = [c[1] for c in chain]
+    if not (len(cn) >= 2 and cn[0].endswith("into_boxed_slice") and (cn[-1].endswith("Vec::<T>::with_capacity") or cn[-1].endswith("Vec::<T>::new"))):
+        return False, "buffer comes from %s" % " <- ".join(n.split("::")[-1] for n in cn[:6])
+    mk_bb = chain[-1][3]
+    vec_local = body.blocks[mk_bb]["t"]["d"]["l"]
+    muts = []
+    for i, t in body.calls():
+        if i == mk_bb or not t["args"]:
+            continue
+        a0 = body.origin_operand(t["args"][0])
+        if a0[0] == "ref" and a0[2] and mir.strip(a0[1]) == body.origin_local(vec_local) and (mir.callee_path(t) or "").startswith("std::vec::Vec"):
+            muts.append((i, t))
+    names = [(mir.callee_path(t) or "").split("::")[-1] for _, t in muts]
+    if names != ["extend_from_slice", "push"] or not body.dominates(muts[0][0], muts[1][0]) or any(body.in_cycle(i) or not body.on_all_paths_to_return(i) for i, _ in muts):
+        return False, "the Vec is filled by %s (expected extend_from_slice(prefix) then push(0))" % names
+    if body.origin_operand(muts[1][1]["args"][1]) != ("const", 0, "u8"):
+        return False, "the pushed terminator is not the constant 0"
+    sl = mir.strip(body.origin_operand(muts[0][1]["args"][1]))
+    if not (sl[0] == "call" and sl[1].endswith("Index::index") and mir.strip(sl[2][0]) == ("arg", 1)):
+        return False, "the copied prefix is not a slice of the argument: %s" % mir.fmt(sl)[:80]
+    rng = sl[2][1]
+    if not (rng[0] == "agg" and str(rng[1]).endswith("RangeTo") and len(rng[4]) == 1):
+        return False, "the copied prefix is not `..end`"
+    end = mir.strip(rng[4][0])
+    ok = end[0] == "call" and end[1].endswith("Option::<T>::unwrap_or") and mir.strip(end[2][1])[0] == "call" and mir.strip(end[2][1])[1].endswith("::len") \
+        and mir.strip(mir.strip(end[2][1])[2][0]) == ("arg", 1)
+    if ok:
+        pos = mir.strip(end[2][0])
+        ok = pos[0] == "call" and pos[1].endswith("Iterator::position") and mir.contains(pos[2][0], lambda x: x == ("arg", 1))
+        if ok:
+            clo = pos[2][1]
+            cpath = clo[1][len("closure:"):] if clo[0] == "agg" and str(clo[1]).startswith("closure:") else None
+            ok = cpath is not None and closure_is_eq_zero(fns, cpath)
+    return (True, "prefix up to position(b == 0) + push(0)") if ok else (False, "`end` is not position(|b| b == 0).unwrap_or(len) of the argument")
+
+
 def run(tier):
     ck = report.Check("C14", tier, level="other")
     f = facts.cfg_cglue()
@@ -90,7 +139,7 @@ def run(tier):
         calls, leaf = chain_of_calls(o)
         names = [c[1] for c in calls]
         has_leak = any(n.endswith("::leak") for n in names)
-        ck.ob("S1-pointer-is-leaked-buffer", key, has_leak and any(n.endswith("as_mut_ptr") or n.endswith("as_ptr") for n in names),
+        ck.ob("S1-pointer-is-leaked-buffer", key, has_leak and any(n.endswith("as_mut_ptr") or n.endswith("as_ptr") or n.endswith("NonNull::<T>::from") or n == "std::convert::From::from" for n in names),
               "%s stores %s, not the data pointer of the buffer it leaked" % (p, mir.fmt(o)[:160]))
         # S2: what was leaked
         idx = next((k for k, n in enumerate(names) if n.endswith("::leak")), None)
@@ -116,7 +165,7 @@ def run(tier):
             elif any(n.endswith("CString::new") for n in cn) and any(n.endswith("into_bytes_with_nul") or n.endswith("into_boxed_c_str") for n in cn):
                 good, why = True, "CString"
             else:
-                why = "buffer comes from %s" % " <- ".join(n.split("::")[-1] for n in cn[:6])
+                good, why = idiom_prefix_then_push(fns, body, src)
         ck.ob("S2-buffer-is-prefix-plus-one-nul", key, good,
               "%s (%s): the leaked buffer is not built by an accepted NUL-terminating idiom (take_while(b != 0).chain(Some(0)).collect or CString): %s -- "
               "without a terminator string_size reads past the allocation, with an interior NUL Drop frees a different length" % (p, fn["span"], why),
@@ -182,6 +231,20 @@ def run(tier):
             if lo[0] == "field" and lo[2] == "0":
                 lo = lo[1]      # (SubWithOverflow(..)).0
             ok = own_ptr(ptr) and lo[0] == "bin" and lo[1].startswith("Sub") and lo[3] == ("const", 1, "usize") and lo[2][0] == "call" and lo[2][1] == RC + "string_size" and own_ptr(lo[2][2][0])
+        if not ok:
+            from lib import sem
+            ev = sem.Evaluator(fns, {}, inline=lambda q: q.startswith((RC, "<" + RC)) and not q.endswith("string_size"))
+            me = ("sym", "self")
+            outs = ev.run(ar, [me])
+            if len(outs) == 1 and outs[0].kind == "ret":
+                own = lambda x: sem.contains(x, lambda y: y == ("fld", me, 0, "0"))
+                frp = [e for e in outs[0].calls() if e[1].endswith("from_raw_parts")]
+                ss = [e for e in outs[0].calls() if e[1] == RC + "string_size"]
+                ok = len(frp) == 1 and len(ss) == 1 and own(frp[0][2][0]) and own(ss[0][2][0])
+                if ok:
+                    ln = sem.strip(frp[0][2][1])
+                    ok = ln[0] == "opq" and ln[2][0] == "bin" and ln[2][1].startswith("Sub") and sem.strip(ln[2][3]) == ("const", 1) and sem.strip(ln[2][2])[0] == "opq" and sem.strip(ln[2][2])[1] == ss[0][3] \
+                        and sem.contains(outs[0].ret, lambda y: y[0] == "opq" and y[1] == frp[0][3])
         ck.ob("S4-as-ref-reads-prefix", "cglue/ReprCString::as_ref", ok, "as_ref must read string_size(ptr) - 1 bytes from the owned pointer: %s" % mir.fmt(o)[:200])
     n_content = 0
     for p, fn in sorted(mine.items()):
